@@ -119,6 +119,15 @@ type seqEvent struct {
 	admitted bool
 	chain    []string // keys, own quota first, root last
 	costs    []int64  // cost of the request on each key of the chain
+	ts       []int64  // instant at which each key of the chain was consulted (nil: t for all)
+}
+
+// at: the instant at which level i of the chain was consulted
+func (e seqEvent) at(i int) int64 {
+	if i < len(e.ts) {
+		return e.ts[i]
+	}
+	return e.t
 }
 
 // explain: is there, for every refused request, a key of its chain that was
@@ -141,7 +150,7 @@ func explain(evs []seqEvent, cfg map[string]keyCfg, chargeLower bool) bool {
 		for _, e := range evs {
 			if e.admitted {
 				for i, k := range e.chain {
-					per[k] = append(per[k], mPoint{t: e.t, ord: e.idx, weight: e.costs[i]})
+					per[k] = append(per[k], mPoint{t: e.at(i), ord: e.idx, weight: e.costs[i]})
 				}
 				continue
 			}
@@ -149,10 +158,10 @@ func explain(evs []seqEvent, cfg map[string]keyCfg, chargeLower bool) bool {
 			ri++
 			if chargeLower {
 				for i := 0; i < j; i++ {
-					per[e.chain[i]] = append(per[e.chain[i]], mPoint{t: e.t, ord: e.idx, weight: e.costs[i]})
+					per[e.chain[i]] = append(per[e.chain[i]], mPoint{t: e.at(i), ord: e.idx, weight: e.costs[i]})
 				}
 			}
-			per[e.chain[j]] = append(per[e.chain[j]], mPoint{t: e.t, ord: e.idx, need: true, ncost: e.costs[j]})
+			per[e.chain[j]] = append(per[e.chain[j]], mPoint{t: e.at(j), ord: e.idx, need: true, ncost: e.costs[j]})
 		}
 		for k, pts := range per {
 			sortPts(pts)
@@ -240,7 +249,7 @@ func monitorSeq(evs []seqEvent, cfg map[string]keyCfg) *monHit {
 	for _, e := range evs {
 		if e.admitted {
 			for i, k := range e.chain {
-				per[k] = append(per[k], mPoint{t: e.t, ord: e.idx, weight: e.costs[i]})
+				per[k] = append(per[k], mPoint{t: e.at(i), ord: e.idx, weight: e.costs[i]})
 			}
 		}
 	}
